@@ -8,6 +8,7 @@ set_option linter.unusedSimpArgs false
 
 namespace Zeno.Repl
 
+set_option maxHeartbeats 4000000 in
 theorem inv_join {cx : Ctx} {s s' : State} (hi : Inv cx s) (l : LId) (f : FId) (claim : TId → Nat)
     (h : step cx s (.join l f claim) = some s') : Inv cx s' := by
   simp only [step] at h
@@ -74,7 +75,7 @@ theorem inv_join {cx : Ctx} {s s' : State} (hi : Inv cx s) (l : LId) (f : FId) (
           · simp only [ht, if_false] at hs
             exact (hi.specJoined l1 t f1 sp hs).2
         simp only [ht, if_true, Option.some.injEq] at hs
-        have h1 := (hguard.2.2.2 hl).2 t ht
+        have h1 := ((hguard.2.2.2 hl).2 t ht).2
         have h2 := hi.reqLe l1 f1 t hguard.2.1 hl ht
         omega
       · have hl' : s.linkUp l1 f1 = true := by simpa [hc] using hl
